@@ -654,7 +654,8 @@ Definition clause_C03b (cfg : config) (f : flowst) (o : op) (x : obs) : N :=
           if negb (seqb (p_redirect p) (t_redirect r)) then 3 else
           if andb (cf_pkce_enabled cfg) (andb (negb (pk_is_empty (p_challenge p))) (negb (pkce_matches cfg p (t_verifier r))))
           then 5 else 0
-      | None => 0 end
+      (* tokens for a code this server never handed out: the empty string, an unknown one *)
+      | None => 6 end
   | _, _ => 0
   end.
 Definition mon_C03x (c : syscase) : N :=
